@@ -21,6 +21,7 @@ import (
 //	pubclose   QoS 1 PUBLISH immediately followed by dropping the connection
 //	idle       virtual time advances by IdleMs
 //	raw        Bytes are written as they are
+//	noack      client C stops acknowledging deliveries (they stay open and are re-sent at every sweep)
 //	pub2hold   client C publishes at QoS 2 with packet identifier PID and keeps the PUBREL back
 //	pub2rel    client C releases the exchange PID it holds (PUBREL): only now is the message forwarded
 //	restartnode a failed node comes back under the same node id (empty state), see Cluster.RestartNode
@@ -81,6 +82,11 @@ type Sess struct {
 	Displaced bool
 	// held: the client's own QoS 2 publishes waiting for its PUBREL (packet id -> message)
 	held map[uint16]Step
+	// NoAck: from step "noack" on the client reads but acknowledges nothing: QoS 1/2 deliveries
+	// to it stay open and are sent again at every sweep. Deliveries are then judged as a set:
+	// every expected message at least as often as expected, nothing unexpected (a copy whose
+	// topic or payload differs from the original is something unexpected)
+	NoAck bool
 }
 
 // World = Cluster + the reference model of who must have received what.
@@ -343,6 +349,12 @@ func (w *World) Apply(st Step) (problem string, inconclusive bool) {
 		if st.PQoS == 2 && !s.K.Has(PUBCOMP, id) {
 			return fmt.Sprintf("client %d: no PUBCOMP for %q", st.C, st.Topic), false
 		}
+	case "noack":
+		if s == nil || !s.Alive || s.Node.Down {
+			return "", false
+		}
+		s.NoAck = true
+		s.K.NoDeliveryAck = true
 	case "pub2hold":
 		if s == nil || !s.Alive || s.Node.Down || s.Displaced || st.PID == 0 {
 			return "", false
@@ -587,6 +599,12 @@ func (w *World) Apply(st Step) (problem string, inconclusive bool) {
 			}
 		}
 		for _, x := range w.S {
+			if x.NoAck && x.Alive {
+				// open deliveries are sent again: the broker re-arms the allowance when it writes
+				if m := w.Cl.Clock.Now() + 2*time.Duration(x.KeepAlive)*time.Second; m > x.DeadlineMax {
+					x.DeadlineMax = m
+				}
+			}
 			// the broker gives up on exchanges whose PUBREL did not come in time
 			x.held = nil
 			if x.K.HoldRel != nil {
@@ -633,6 +651,9 @@ func (w *World) CheckDeliveries() string {
 		}
 		sort.Strings(ks)
 		for _, k := range ks {
+			if s.NoAck && s.Expect[k] > 0 && got[k] >= s.Expect[k] {
+				continue
+			}
 			if got[k] != s.Expect[k] {
 				return fmt.Sprintf("client %d (mount point %s, node %s, filters %v): received %d x %s, expected %d", i, w.mp(s), s.Node.Name, sortedFilters(s.Subs), got[k], showKey(k), s.Expect[k])
 			}
